@@ -50,6 +50,11 @@ Record snapok (h : hist) (T : ts) (ob : option tbuf) (acc : list ev) (rest : lis
   so_s : 1 <= s <= h_hi h
 }.
 
+(* E: the batch at the snapshot's own index, if it is still in front of the subscription: it is the
+   last item of A (already in the view) and will be delivered once more *)
+Definition dup_of (snap cidx : N) (A E : list item) : Prop :=
+  E = [] \/ exists A' e, E = [e] /\ A = A' ++ [e] /\ item_idx e = cidx /\ cidx = snap.
+
 Definition buf_live (ob : option tbuf) (off : nat) (id : option N) : Prop :=
   exists tb, ob = Some tb /\ (off <= List.length (tb_items tb))%nat /\
              match id with Some i => tb_id tb = i | None => True end.
@@ -58,9 +63,10 @@ Definition subinv (h : hist) (ob : option tbuf) (x : client) (sb : sub) : Prop :
   buf_live ob (s_off sb) (Some (s_buf sb)) /\
   ((s_pre sb = [] /\ (c_h x = HStream \/ c_h x = HResume) /\ c_epoch x = h_epoch h /\
     s_snap sb <= c_idx x /\
-    exists A D R, core h (c_ts x) (c_view x) (c_idx x) A D /\
-                  tail h (c_ts x) ob (s_off sb) = R ++ D /\
-                  Forall (fun it => skipped (s_snap sb) it = true) R)
+    exists A D R E, core h (c_ts x) (c_view x) (c_idx x) A D /\
+                    tail h (c_ts x) ob (s_off sb) = R ++ E ++ D /\
+                    Forall (fun it => skipped (s_snap sb) it = true) R /\
+                    dup_of (s_snap sb) (c_idx x) A E)
    \/
    (s_snap sb = 0 /\
     exists acc rest A B2 D s,
